@@ -3,6 +3,7 @@
 use crate::prng::Prng;
 use crate::report::Report;
 
+pub mod api;
 pub mod c01;
 pub mod c03;
 pub mod c04;
